@@ -939,6 +939,377 @@ def check(ctx):
             pi = g.randint(0, N * M - 1)
             rv_reqs.append({"op": "var_swap", "dt": float_bits(dts[pi]), "strike": float_bits(0.0), "paths": enc_flt([paths[pi]])})
             rv_meta.append(got[pi])
+    # ---------------- BROADCASTING and OWNERSHIP of the result, for every helper of the file.  The inputs are broadcastable tensors of DIFFERENT
+    # shapes (lower-rank, singleton dimensions, 0-dim, 3-D / 4-D non-square), some of them non-contiguous (transposed strides), expanded (stride 0)
+    # or with requires_grad=True; scalar parameters / weights come as Python floats, Python INTS (0 / 1 / ...), 0-dim tensors and tensors of a shape
+    # of their own, with the values exactly 0 and 1 (corners / edges of the interpolation cell, zero cost, unit slope ...) next to interior ones.
+    # Predicates: (1) the result has the broadcast shape of all tensor arguments, (2) every element is the documented formula of the broadcast
+    # elements, (3) the result is a tensor of its own: it shares no storage with an argument, writing into it in place leaves every argument
+    # unchanged and a second call returns the same values.  (3) is not demanded where the unchanged code documents the identity without bounds
+    # (clamp / leaky_clamp / the modules with neither min nor max return their input).  The elements also go to the model ops.
+    from pfhedge.nn import Clamp as ClampMod, LeakyClamp as LeakyClampMod
+    FULL_SHAPES = [(4, 3), (4, 3), (2, 4, 3), (5, 1), (1, 3), (3,), (2, 1, 3, 2), (3, 1, 2)]
+
+    def sub_shape(full, keep=0.6):
+        s = [d_ if g.chance(keep) else 1 for d_ in full]
+        while s and s[0] == 1 and g.chance(0.5):
+            s = s[1:]
+        return tuple(s)
+
+    def make(shape, dt_, val, form=None):
+        """tensor of `shape` with entries val(): contiguous, with transposed strides, expanded along its first dimension or requiring grad"""
+        form = form or g.weighted([("plain", 4), ("transposed", 1.5), ("expanded", 1.5), ("grad", 1)])
+        shape = tuple(shape)
+        if form == "expanded" and len(shape) >= 1 and shape[0] > 1:
+            base = (1,) + shape[1:]
+            return torch.tensor([float(val()) for _i in range(math.prod(base))], dtype=dt_).reshape(base).expand(shape), form
+        t = torch.tensor([float(val()) for _i in range(math.prod(shape))], dtype=dt_)
+        if form == "transposed" and len(shape) >= 2 and math.prod(shape) > max(shape):
+            return t.reshape(shape[::-1]).permute(*range(len(shape) - 1, -1, -1)), form
+        t = t.reshape(shape)
+        if form == "grad":
+            return t.requires_grad_(True), form
+        return t, "plain"
+
+    def flat(a, bshape, exact=False):
+        """the elements an argument contributes to every element of the broadcast shape (None / Python numbers: the same for all)"""
+        n_ = math.prod(bshape)
+        if a is None:
+            return [None] * n_
+        if torch.is_tensor(a):
+            e = torch.broadcast_to(a.detach().to(torch.float64), bshape).reshape(-1).tolist()
+            return [F(z) for z in e] if exact else e
+        return [F(a) if exact else float(a)] * n_
+
+    def describe(a):
+        if a is None or not torch.is_tensor(a):
+            return a if not isinstance(a, F) else rat_str(a)
+        return {"shape": list(a.shape), "stride": list(a.stride()), "requires_grad": a.requires_grad, "values": a.detach().reshape(-1).tolist()}
+
+    def same_t(a_, b_):
+        return tuple(a_.shape) == tuple(b_.shape) and bool(torch.allclose(a_.detach(), b_.detach(), rtol=0, atol=0, equal_nan=True))
+
+    def storage_ptr(t_):
+        return t_.untyped_storage().data_ptr() if hasattr(t_, "untyped_storage") else t_.storage().data_ptr()
+
+    def own_result(name, fn, args, kwargs, case, expect, bshape, eq, tag, formula, may_alias=False, extra=()):
+        """runs fn(*args, **kwargs) and judges shape, values (expect: one flat list per output; eq: comparison of one element) and ownership of the
+        result.  Returns the flat outputs (Fractions / floats as in expect) or None"""
+        tens = [(f"arg{i}", a_) for i, a_ in enumerate(args) if torch.is_tensor(a_)] + [(k_, v_) for k_, v_ in kwargs.items() if torch.is_tensor(v_)] \
+            + [(n_, t_) for n_, t_ in extra if torch.is_tensor(t_)]       # extra: tensors the callable holds (parameters of a module)
+        saved = [t_.detach().clone() for _n, t_ in tens]
+        st, v, mut = call_impl(fn, *args, **kwargs)
+        ctx.case(case, True, tag=tag)
+        ctx.stats[f"own-result:{name}"] += 1
+        ctx.traces += 1
+        if mut:
+            ctx.mutated(name, mut, case)
+        if st != "ok":
+            ctx.fail(f"{name} raised on broadcastable arguments of different shapes", case, key=f"{name}:broadcast:error", detail=v)
+            return None
+        outs = list(v) if isinstance(v, (tuple, list)) else [v]
+        if len(outs) != len(expect) or any(not torch.is_tensor(o_) or tuple(o_.shape) != tuple(bshape) for o_ in outs):
+            ctx.fail(f"the result of {name} has not the broadcast shape of its arguments", case, key=f"{name}:broadcast:shape",
+                     detail={"impl": [list(o_.shape) if torch.is_tensor(o_) else str(type(o_)) for o_ in outs], "expected": list(bshape),
+                             "argument_shapes": {n_: list(t_.shape) for n_, t_ in tens}})
+            return None
+        exact = any(isinstance(z, F) for e_ in expect for z in e_)
+        got = [tensor_to_fracs(o_.reshape(-1)) if exact else [float(z) for z in o_.detach().reshape(-1).tolist()] for o_ in outs]
+        for j, (gv, ev) in enumerate(zip(got, expect)):
+            bad = [i for i, (a_, b_) in enumerate(zip(gv, ev)) if not eq(a_, b_)]
+            if bad:
+                i = bad[0]
+                ctx.fail(f"{name} on broadcast arguments differs from {formula}", case, key=f"{name}:broadcast:value",
+                         detail={"output": j, "flat_index": i, "impl": str(gv[i]), "expected": str(ev[i]), "n_wrong": len(bad)})
+                return None
+        ptrs = {}
+        for n_, t_ in tens:
+            ptrs.setdefault(storage_ptr(t_), n_)
+        shared = sorted({ptrs[storage_ptr(o_)] for o_ in outs if storage_ptr(o_) in ptrs})
+        if may_alias:
+            ctx.stats[f"own-result:{name}:identity documented (result may be the input): shares storage={bool(shared)}"] += 1
+            return got
+        problem = {}
+        if shared:
+            problem["result shares its storage with"] = shared
+        if len({storage_ptr(o_) for o_ in outs}) != len(outs):
+            problem["the outputs share one storage"] = True
+        firsts = [o_.detach().clone() for o_ in outs]
+        for j, o_ in enumerate(outs):
+            try:
+                with torch.no_grad():
+                    o_.detach().mul_(0.0).sub_(7.0)             # the caller goes on working with the result in place
+            except Exception as e:  # noqa
+                problem[f"output {j} cannot be written in place"] = canon_error(e)
+        changed = [n_ for (n_, t_), s_ in zip(tens, saved) if not same_t(t_, s_)]
+        if changed:
+            problem["arguments changed by writing into the result"] = changed
+        st2, v2, _m2 = call_impl(fn, *args, **kwargs)
+        outs2 = (list(v2) if isinstance(v2, (tuple, list)) else [v2]) if st2 == "ok" else []
+        if st2 != "ok" or len(outs2) != len(firsts) or any(not same_t(a_, b_) for a_, b_ in zip(outs2, firsts)):
+            problem["a second call with the same arguments differs from the first"] = True
+        if problem:
+            ctx.fail(f"the result of {name} is not a tensor of its own: it aliases an argument (working on the result in place changes the caller's tensor)",
+                     case, key=f"{name}:result-aliases-input", detail=problem)
+        return got
+
+    n_own = 1 if ctx.tier == "quick" else 8
+    # bilerp (exact).  Corpus: every pair of weights out of Python int 0 / 1, float 0.0 / 1.0 / interior / outside, 0-dim tensors 0 / 1, with the four
+    # inputs of four different shapes in every rotation, and with four inputs of one shape (ownership alone); then random draws
+    W_CORPUS = [("int", 0), ("int", 1), ("float", F(0)), ("float", F(1)), ("float", F(1, 4)), ("float", F(-3, 2)), ("tensor0", F(0)), ("tensor0", F(1)),
+                ("tensor", None)]
+    b_corpus = []
+    for rot in range(5):
+        shp = [(3,), (4, 3), (4, 1), (1, 3)]
+        shp = shp[rot:] + shp[:rot] if rot < 4 else [(4, 3)] * 4
+        for w1c in W_CORPUS:
+            for w2c in W_CORPUS:
+                if rot in (0, 4) or w1c[0] == "int" or w2c[0] == "int" or g.chance(0.25):
+                    b_corpus.append((shp, w1c, w2c))
+    wval = lambda: g.choice([F(0), F(1), F(0), F(1), g.dy(0, 1, 3), g.dy(-3, 4, 3)])
+    for it_ in range(len(b_corpus) + 150 * n_own):
+        dtn = g.weighted([("float64", 3), ("float32", 1)])
+        dt_ = getattr(torch, dtn)
+        if it_ < len(b_corpus):
+            shapes, w1c, w2c = b_corpus[it_]
+            full = (4, 3)
+        else:
+            full = g.choice(FULL_SHAPES)
+            shapes = [sub_shape(full, 0.7) for _i in range(4)]
+            w1c, w2c = [(g.weighted([("int", 2), ("float", 2), ("tensor0", 1), ("tensor", 2)]), None) for _i in range(2)]
+        ins, forms = zip(*[make(s_, dt_, lambda: g.dy(-4, 4, 3)) for s_ in shapes])
+        ws, wforms = [], []
+        for form, val in (w1c, w2c):
+            val = wval() if val is None else val
+            if form == "int":
+                ws.append(int(val) if val in (0, 1) else int(g.choice([0, 1, 2, -1])))
+            elif form == "float":
+                ws.append(float(val))
+            elif form == "tensor0":
+                ws.append(torch.tensor(float(val), dtype=dt_))
+            else:
+                ws.append(make(sub_shape(full), dt_, wval)[0])
+            wforms.append(form)
+        args = list(ins) + ws
+        bshape = tuple(torch.broadcast_shapes(*[tuple(a_.shape) for a_ in args if torch.is_tensor(a_)]))
+        cols = [flat(a_, bshape, exact=True) for a_ in args]
+        elems = [list(e_) for e_ in zip(*cols)]
+        expect = [[(1 - u) * (1 - w) * a + u * (1 - w) * b + (1 - u) * w * c_ + u * w * d_ for a, b, c_, d_, u, w in elems]]
+        case = {"bilerp": [describe(a_) for a_ in args], "dtype": dtn, "weight_forms": wforms, "input_forms": list(forms), "broadcast_shape": list(bshape)}
+        ctx.stats[f"own-result:bilerp:weights={'+'.join(sorted(wforms))}"] += 1
+        ctx.stats[f"own-result:bilerp:some Python-number weight exactly 0 or 1={any(not torch.is_tensor(w) and w in (0, 1) for w in ws)}"] += 1
+        got = own_result("bilerp", fnl.bilerp, args, {}, case, expect, bshape, lambda a_, b_: a_ == b_, "bilerp:broadcast",
+                         "(1-w1)(1-w2) input1 + w1(1-w2) input2 + (1-w1) w2 input3 + w1 w2 input4")
+        if got is not None and (it_ >= len(b_corpus) or it_ % 4 == 0):
+            breq.extend(elems)
+            bmeta.extend(got[0])
+    # clamp / leaky_clamp / Clamp() / LeakyClamp() (exact): input and bounds of different shapes, bounds also Python floats / ints / absent
+    own_creqs, own_cmeta = [], []
+    for it_ in range(160 * n_own):
+        fn = g.choice(["leaky", "clamp", "leaky_mod", "clamp_mod"])
+        dtn = g.weighted([("float64", 3), ("float32", 1)])
+        dt_ = getattr(torch, dtn)
+        slope = g.choice([F(0), F(1, 128), F(1, 4), F(1, 2), F(1), F(1, 8)]) if fn in ("leaky", "leaky_mod") else F(0)
+        mode = "mean" if fn == "clamp_mod" else g.choice(["mean", "max"])
+        full = g.choice(FULL_SHAPES)
+        x, xform = make(full if g.chance(0.6) else sub_shape(full), dt_, lambda: g.dy(-4, 4, 1))
+        bforms = [g.weighted([("tensor", 4), ("tensor0", 1), ("float", 1.5), ("int", 1.5), ("none", 1)]) for _i in range(2)]
+        if fn == "clamp" and mode == "max":
+            # torch.clamp: two tensors, two numbers or one bound (one of each is the known finding K1; no bound at all is a backend error)
+            if bforms == ["none", "none"]:
+                bforms[g.randint(0, 1)] = "tensor"
+            kinds_ = {"tensor": "t", "tensor0": "t", "float": "n", "int": "n"}
+            if "none" not in bforms and kinds_[bforms[0]] != kinds_[bforms[1]]:
+                bforms[1] = bforms[0]
+        bounds = []
+        for form in bforms:
+            bval = lambda: g.dy(-2, 2, 1)
+            bounds.append(None if form == "none" else float(bval()) if form == "float" else g.randint(-2, 2) if form == "int" else
+                          torch.tensor(float(bval()), dtype=dt_) if form == "tensor0" else make(sub_shape(full), dt_, bval)[0])
+        lo, hi = bounds
+        bshape = tuple(torch.broadcast_shapes(*[tuple(a_.shape) for a_ in (x, lo, hi) if torch.is_tensor(a_)]))
+        elems = [list(e_) for e_ in zip(*[flat(a_, bshape, exact=True) for a_ in (x, lo, hi)])]
+        if fn in ("clamp", "clamp_mod"):
+            expect = [[spec_clamp(x_, l_, h_, mode) for x_, l_, h_ in elems]]
+        else:
+            expect = [[spec_leaky(x_, l_, h_, slope, mode) for x_, l_, h_ in elems]]
+        if fn == "leaky":
+            f_, kw = fnl.leaky_clamp, dict(clamped_slope=float(slope), inverted_output=mode)
+        elif fn == "clamp":
+            f_, kw = fnl.clamp, dict(inverted_output=mode)
+        elif fn == "leaky_mod":
+            f_, kw = LeakyClampMod(clamped_slope=float(slope), inverted_output=mode), {}
+        else:
+            f_, kw = ClampMod(), {}
+        req = {"op": "clamp", "fn": fn, "slope": rat_str(slope), "mode": mode,
+               "elems": [[rat_str(x_), None if l_ is None else rat_str(l_), None if h_ is None else rat_str(h_)] for x_, l_, h_ in elems]}
+        case = {"fn": fn, "slope": rat_str(slope), "mode": mode, "dtype": dtn, "input": describe(x), "min": describe(lo), "max": describe(hi),
+                "bound_forms": bforms, "input_form": xform, "broadcast_shape": list(bshape)}
+        ctx.stats[f"own-result:clamp:bounds={'+'.join(bforms)}"] += 1
+        inv = any(l_ is not None and h_ is not None and l_ > h_ for _x, l_, h_ in elems)
+        ctx.stats[f"own-result:clamp:inverted somewhere={inv}"] += 1
+        name = {"leaky": "leaky_clamp", "clamp": "clamp", "leaky_mod": "LeakyClamp.forward", "clamp_mod": "Clamp.forward"}[fn]
+        got = own_result(name, f_, [x, lo, hi], kw, case, expect, bshape, lambda a_, b_: a_ == b_, fn + ":broadcast",
+                         "the documented piecewise formula (bounds broadcast against the input)", may_alias=lo is None and hi is None)
+        if got is not None:
+            own_creqs.append(req)
+            own_cmeta.append((case, ("ok", got[0])))
+    # svi_variance / SVIVariance (Float): strikes and parameters of different shapes, parameters also Python floats / ints (sigma = 0, 1 ...)
+    for it_ in range(100 * n_own):
+        full = g.choice(FULL_SHAPES)
+        k_t, kform = make(full if g.chance(0.5) else sub_shape(full), torch.float64, lambda: g.r.uniform(-1, 1))
+        pars, pforms = [], []
+        for pi, rng in enumerate([(0, 0.1), (0, 1), (-0.9, 0.9), (-0.5, 0.5), (0.01, 2)]):
+            form = g.weighted([("float", 2), ("int", 1), ("tensor0", 1), ("tensor", 3)])
+            pval = lambda: g.choice([g.r.uniform(*rng), g.r.uniform(*rng), 0.0, 1.0, -g.r.uniform(0.01, 2)])
+            pars.append(float(pval()) if form == "float" else g.choice([0, 1, 1, -1, 2]) if form == "int" else
+                        torch.tensor(pval(), dtype=torch.float64) if form == "tensor0" else make(sub_shape(full), torch.float64, pval)[0])
+            pforms.append(form)
+        args = [k_t] + pars
+        bshape = tuple(torch.broadcast_shapes(*[tuple(a_.shape) for a_ in args if torch.is_tensor(a_)]))
+        elems = [list(e_) for e_ in zip(*[flat(a_, bshape) for a_ in args])]
+        expect = [[a_ + b_ * (rho * (k_ - m_) + math.sqrt((k_ - m_) ** 2 + sg ** 2)) for k_, a_, b_, rho, m_, sg in elems]]
+        module = g.chance(0.5)
+        case = {"svi": [describe(a_) for a_ in args], "module": module, "parameter_forms": pforms, "input_form": kform, "broadcast_shape": list(bshape)}
+        if module:
+            got = own_result("SVIVariance.forward", SVIVariance(*pars), [k_t], {}, case, expect, bshape, close, "svi:broadcast",
+                             "a + b(rho(k-m) + sqrt((k-m)^2 + sigma^2))", extra=list(zip(["a", "b", "rho", "m", "sigma"], pars)))
+        else:
+            got = own_result("svi_variance", fnl.svi_variance, args, {}, case, expect, bshape, close, "svi:broadcast",
+                             "a + b(rho(k-m) + sqrt((k-m)^2 + sigma^2))")
+        if got is not None:
+            sreq_elems.extend(elems[:6])
+            smeta.extend(got[0][:6])
+    # box_muller (Float): the two uniform inputs of different shapes; both outputs have the broadcast shape and are tensors of their own
+    for it_ in range(80 * n_own):
+        full = g.choice(FULL_SHAPES)
+        u1, f1 = make(sub_shape(full, 0.7), torch.float64, lambda: g.choice([g.r.random(), g.r.random(), g.r.random(), 1e-12, 0.0, 1.0, 0.5]))
+        u2, f2 = make(sub_shape(full, 0.7), torch.float64, lambda: g.choice([g.r.random(), g.r.random(), 0.0, 1.0, 0.25, g.r.uniform(-3, 3)]))
+        bshape = tuple(torch.broadcast_shapes(tuple(u1.shape), tuple(u2.shape)))
+        elems = [list(e_) for e_ in zip(flat(u1, bshape), flat(u2, bshape))]
+        rad = [math.sqrt(-2 * math.log(max(a_, 1e-10))) for a_, _b in elems]
+        expect = [[r_ * math.cos(2 * math.pi * b_) for r_, (_a, b_) in zip(rad, elems)], [r_ * math.sin(2 * math.pi * b_) for r_, (_a, b_) in zip(rad, elems)]]
+        case = {"box_muller": [describe(u1), describe(u2)], "input_forms": [f1, f2], "broadcast_shape": list(bshape)}
+        got = own_result("box_muller", fnl.box_muller, [u1, u2], {}, case, expect, bshape, lambda a_, b_: close(a_, b_, ab=1e-9), "box_muller:broadcast",
+                         "sqrt(-2 log max(u1, epsilon)) (cos, sin)(2 pi u2)")
+        if got is not None:
+            bm_elems.extend(elems[:6])
+            bm_meta.extend(list(zip(got[0], got[1]))[:6])
+    # ww_width (Float): gamma and spot of different shapes; cost and a Python floats / INTS (cost 0 or 1) / 0-dim / tensors with zeros among the costs
+    for it_ in range(100 * n_own):
+        full = g.choice(FULL_SHAPES)
+        gam_t, gform = make(sub_shape(full, 0.7), torch.float64, lambda: g.choice([g.r.uniform(0, 5), g.r.uniform(-5, 5), 0.0]))
+        spot_t, sform = make(sub_shape(full, 0.7), torch.float64, lambda: g.r.uniform(0.1, 3))
+        cform, aform = [g.weighted([("float", 2), ("int", 2), ("tensor0", 1), ("tensor", 3)]) for _i in range(2)]
+        cval = lambda: g.choice([0.0, 0.0, 1e-4, 1e-3, 1e-2, 1.0, 0.5])
+        aval = lambda: g.choice([0.25, 1.0, 3.0, 10.0, g.r.uniform(0.01, 20)])
+        cost_ = float(cval()) if cform == "float" else g.choice([0, 1]) if cform == "int" else torch.tensor(cval(), dtype=torch.float64) \
+            if cform == "tensor0" else make(sub_shape(full), torch.float64, cval)[0]
+        a_par = float(aval()) if aform == "float" else g.choice([1, 2, 3]) if aform == "int" else torch.tensor(aval(), dtype=torch.float64) \
+            if aform == "tensor0" else make(sub_shape(full), torch.float64, aval)[0]
+        args = [gam_t, spot_t, cost_, a_par]
+        bshape = tuple(torch.broadcast_shapes(*[tuple(a_.shape) for a_ in args if torch.is_tensor(a_)]))
+        elems = [list(e_) for e_ in zip(*[flat(a_, bshape) for a_ in args])]
+        expect = [[0.0 if c_ == 0 else (3 * c_ * g_ ** 2 * s_ / (2 * a_)) ** (1 / 3) for g_, s_, c_, a_ in elems]]
+        case = {"ww_width": [describe(a_) for a_ in args], "forms": {"gamma": gform, "spot": sform, "cost": cform, "a": aform}, "broadcast_shape": list(bshape)}
+        by_name = g.chance(0.5)
+        got = own_result("ww_width", fnl.ww_width, [] if by_name else args, dict(gamma=gam_t, spot=spot_t, cost=cost_, a=a_par) if by_name else {},
+                         case, expect, bshape, close, "ww_width:broadcast", "(3 c gamma^2 S / (2a))^(1/3)")
+        if got is not None:
+            wreq_elems.extend(elems[:6])
+            wmeta.extend(got[0][:6])
+    # realized_variance / realized_volatility (Float): prices (*, T) non-contiguous / expanded / requiring grad, dt a Python float / INT, 0-dim or a
+    # tensor of a shape broadcastable to (*) (lower rank, singleton dimensions); the result has shape (*) and is a tensor of its own
+    for it_ in range(100 * n_own):
+        T = g.small((2, 3, 4, 5, 8))
+        batch = g.choice([(), (1,), (3,), (4, 3), (2, 1), (1, 3), (2, 4, 3), (T - 1,) if T > 2 else (2,), (3, T - 1) if T > 2 else (3, 2)])
+        fn_name = g.choice(["realized_volatility", "realized_variance"])
+        x, xform = make(batch + (T,), torch.float64, lambda: math.exp(g.r.uniform(-0.3, 0.3)))
+        dform = g.weighted([("float", 2), ("int", 2), ("tensor0", 1), ("tensor", 4)])
+        dval = lambda: g.choice([1 / 250, 0.1, 1 / 12, 1.0, 2.0, g.r.uniform(0.001, 1.0)])
+        dt_arg = float(dval()) if dform == "float" else g.choice([1, 2, 1, 5]) if dform == "int" else torch.tensor(dval(), dtype=torch.float64) \
+            if dform == "tensor0" else make(sub_shape(batch) if batch else (), torch.float64, dval)[0]
+        bshape = tuple(torch.broadcast_shapes(batch, tuple(dt_arg.shape))) if torch.is_tensor(dt_arg) else batch
+        paths = x.detach().reshape(-1, T).tolist()
+        paths = [paths[i % len(paths)] for i in range(math.prod(bshape))] if math.prod(bshape) != len(paths) else paths
+        dts = flat(dt_arg, bshape)
+        expect = [[]]
+        for path, dv in zip(paths, dts):
+            lr = [math.log(path[i + 1]) - math.log(path[i]) for i in range(T - 1)]
+            ev = sum(z * z for z in lr) / len(lr) / dv
+            expect[0].append(math.sqrt(ev) if fn_name == "realized_volatility" else ev)
+        case = {"fn": fn_name, "input": describe(x), "dt": describe(dt_arg), "dt_form": dform, "input_form": xform, "output_shape": list(bshape)}
+        ctx.stats[f"own-result:realized:dt={dform}"] += 1
+        by_name = g.chance(0.5)
+        got = own_result(fn_name, getattr(fnl, fn_name), [x] if by_name else [x, dt_arg], dict(dt=dt_arg) if by_name else {}, case, expect, bshape, close,
+                         "realized:broadcast", "sigma^2 = 1/(T-1) sum (1/dt) log(S_{i+1}/S_i)^2 (volatility: its square root)")
+        if got is not None and fn_name == "realized_volatility" and tuple(bshape) == tuple(batch):
+            pi = g.randint(0, len(paths) - 1)
+            rv_reqs.append({"op": "var_swap", "dt": float_bits(dts[pi]), "strike": float_bits(0.0), "paths": enc_flt([paths[pi]])})
+            rv_meta.append(got[0][pi])
+    # WhalleyWilmott(derivative).forward / .width: the input (N, *, H) non-square, with singleton dimensions, non-contiguous / expanded / requiring
+    # grad; the hedge has shape (N, *, 1), follows the band rule row by row and is a tensor of its own (not a view of the previous-hedge column)
+    for it_ in range(24 * n_own):
+        kind = g.weighted([("european", 3), ("european_binary", 2), ("lookback", 1), ("american_binary", 1)])
+        cost = g.choice([0.0, 1e-4, 1e-3, 1e-2, 5e-2])
+        a = g.choice([0.25, 1.0, 3.0, 1.0])
+        k = g.choice([0.5, 1.0, 2.0, 1.0, 7.5])
+        call = g.chance(0.7) if kind in ("european", "european_binary") else True
+        m = WhalleyWilmott(ww_derivative(kind, BrownianStock(cost=cost, dtype=torch.float64), k, call), a=a)
+        ref = BlackScholes(ww_derivative(kind, BrownianStock(dtype=torch.float64), k, call))
+        names = m.inputs()
+        lead = g.choice([(1,), (3,), (3, 1), (1, 2), (2, 3), (2, 1, 2), (4,)])
+        form = g.weighted([("plain", 2), ("transposed", 2), ("expanded", 2), ("grad", 1)])
+        n_rows = math.prod(lead)
+        n_distinct = n_rows // lead[0] if form == "expanded" and lead[0] > 1 else n_rows
+        states = [ww_state(kind) for _i in range(n_distinct)]
+        col = lambda name: torch.tensor([[st_[name]] for st_ in states], dtype=torch.float64)
+        st0, dg, _m = call_impl(lambda: (ref.delta(**{nm: col(nm) for nm in names[:-1]}).detach(), ref.gamma(**{nm: col(nm) for nm in names[:-1]}).detach()))
+        if st0 != "ok":
+            continue
+        deltas, gammas = ([float(z) for z in t_.reshape(-1).tolist()] for t_ in dg)
+        rows, exps, wdocs = [], [], []
+        for st_, delta, gam in zip(states, deltas, gammas):
+            wdoc = (3 * cost * gam ** 2 * (k * math.exp(st_["log_moneyness"])) / (2 * a)) ** (1 / 3) if cost > 0 else 0.0
+            where = g.choice(["inside", "above", "below", "at_delta", "far"])
+            prev = {"inside": delta + 0.5 * wdoc * g.r.uniform(-1, 1), "above": delta + wdoc + g.r.uniform(0.01, 1), "below": delta - wdoc - g.r.uniform(0.01, 1),
+                    "at_delta": delta, "far": g.r.uniform(-3, 3)}[where]
+            rows.append([st_[nm] for nm in names[:-1]] + [prev])
+            exps.append(prev if delta - wdoc <= prev <= delta + wdoc else (delta + wdoc if prev > delta + wdoc else delta - wdoc))
+            wdocs.append(wdoc)
+        if not all(math.isfinite(z) for z in deltas + gammas + exps):
+            ctx.stats["ww: Black-Scholes delta / gamma not finite (skipped; C18 matter)"] += 1
+            continue
+        H = len(names)
+        xt = torch.tensor(rows, dtype=torch.float64)
+        if form == "expanded" and lead[0] > 1:
+            x = xt.reshape((1,) + lead[1:] + (H,)).expand(lead + (H,))
+        elif form == "transposed":
+            x = xt.t().contiguous().t().reshape(lead + (H,)) if len(lead) == 1 else \
+                xt.reshape(lead + (H,)).permute(*range(len(lead), -1, -1)).contiguous().permute(*range(len(lead), -1, -1))
+        else:
+            x = xt.reshape(lead + (H,))
+            if form == "grad":
+                x.requires_grad_(True)
+        rep = n_rows // n_distinct
+        exps_f, wdocs_f = exps * rep, wdocs * rep
+        tols = [1e-9 * (1 + abs(e_)) + 1e-7 * w_ for e_, w_ in zip(exps_f, wdocs_f)]
+        case = {"kind": kind, "inputs": names, "cost": cost, "a": a, "k": k, "call": call, "input": describe(x), "input_form": form}
+        idx = {"i": 0}
+
+        def eq_row(a_, b_, tols=tols, idx=idx):
+            i = idx["i"] % len(tols)
+            idx["i"] += 1
+            return abs(a_ - b_) <= tols[i]
+        got = own_result("WhalleyWilmott.forward", m, [x], {}, case, [exps_f], lead + (1,), eq_row, "ww:own-result:" + kind,
+                         "clamp(prev, delta -/+ (3 c gamma^2 S / (2a))^(1/3)) row by row")
+        idx["i"] = 0
+        gotw = own_result("WhalleyWilmott.width", m.width, [x.detach()[..., :-1]], {}, case | {"what": "width"}, [wdocs_f], lead + (1,),
+                          lambda a_, b_: abs(a_ - b_) <= 1e-7 * b_ + 1e-12, "ww:own-result:width:" + kind, "(3 c gamma^2 S / (2a))^(1/3) row by row")
+        if got is not None:
+            rows_f = rows * rep
+            wmod_add(kind, call, k, cost, a, rows_f, [(case | {"row": r_}, o_, None if kind in ("european", "european_binary") else t_)
+                                                      for r_, o_, t_ in zip(rows_f, got[0], tols)])
     try:
         bouts = ctx.driver([{"op": "bilerp", "elems": enc_rat(breq)}])
         wwouts = ctx.driver(wwreqs)
@@ -949,9 +1320,13 @@ def check(ctx):
                             {"op": "ww_width", "elems": enc_flt(wreq_elems)}])
         rvouts = ctx.driver(rv_reqs)
         bm_eps_outs = ctx.driver([{"op": "box_muller", "eps": float_bits(eps), "elems": enc_flt(el)} for eps, (el, _o) in sorted(bm_eps.items())])
+        own_couts = [mres(m_) for m_ in ctx.driver(own_creqs)] if own_creqs else []
     except DriverBroken as e:
         ctx.ties_broken.append({"kind": "driver", "detail": str(e)[:1500]})
-        bouts, wwouts, souts, rvouts, bm_eps_outs, wwrat, wmod_outs, wmod_live = [], [], [], [], [], [], [], []
+        bouts, wwouts, souts, rvouts, bm_eps_outs, wwrat, wmod_outs, wmod_live, own_couts = [], [], [], [], [], [], [], [], []
+    for (case, ri), rm in zip(own_cmeta, own_couts):
+        if ri != rm:
+            ctx.disagree(case["fn"], case, ("ok", enc_rat(ri[1])), rm if rm[0] != "ok" else ("ok", enc_rat(rm[1])))
     for (q, metas_), mo in zip(wmod_live, wmod_outs):
         for (case, impl, tol), mm in zip(metas_, mo):
             ctx.stats["ww_module:rows compared"] += 1
